@@ -84,6 +84,19 @@ def coq_closure(roots):
     return sorted(seen)
 
 
+def extract_deps(prop):
+    """.vo targets of everything Extract/<x>.v requires from this development (the extraction itself is run
+    later, outside make): on a fresh tree they are not necessarily in the closure of the statement files."""
+    if not prop.get("extract"):
+        return []
+    out = []
+    for f in coq_closure(["Extract/%s.v" % prop["extract"]]):
+        rel = os.path.relpath(f, COQ)
+        if not rel.startswith("Extract/"):
+            out.append(rel[:-2] + ".vo")
+    return out
+
+
 def proof_stage(prop, tier, log):
     """Returns dict(obligations, discharged, axioms, problems, theorems)."""
     res = dict(obligations=0, discharged=0, axioms={}, problems=[], theorems=[], checker_cmd="")
@@ -94,6 +107,7 @@ def proof_stage(prop, tier, log):
         res["problems"].append("gen_consts failed (coq/Gen/Consts.v removed): " + out0[-800:])
     coq_project()
     targets = [t[:-2] + ".vo" for t in [prop["props_file"]] + prop.get("props_extra", []) + prop.get("extra_coq", [])]
+    targets += extract_deps(prop)
     rc, out, dt = sh("make -j16 " + " ".join(targets), cwd=COQ, timeout=6000)
     log.append("== make (%.1fs) rc=%d\n%s" % (dt, rc, out[-3000:]))
     if rc != 0:
